@@ -458,11 +458,16 @@ def loadNames : List (Key × Nat) → List Name → List Name
 
 def inDs (s : State) (d : Nat) (g : Nat) : Bool := s.fds[g]? == some d
 
+/-- h5py iteration order of a reopened file: groups by name, the links of each group by name -/
+def loadLe (file : Table) (a b : Key × Nat) : Bool :=
+  let fa := (nameOfVal file a.1.1).getD ""
+  let fb := (nameOfVal file b.1.1).getD ""
+  decide (fa < fb) || (fa == fb && decide (a.1.2 ≤ b.1.2))
+
 def reopen (v : Variant) (s : State) (d : Nat) : State :=
   let mine := sortBy entryLe (s.file.filter (fun e => e.1.1 = d))
   let closedH := s.handles.map (fun hd => if inDs s d hd.home then { hd with closed := true } else hd)
-  -- frames in name order, the links of each in name order
-  let toLoad := mine.flatMap (fun e => sortBy entryLe (s.links.filter (fun l => l.1.1 = e.2)))
+  let toLoad := sortBy (loadLe s.file) (s.links.filter (fun l => l.1.1 ∈ mine.map (·.2)))
   let loaded := loadCols v toLoad closedH
   { s with dfs := s.dfs.filter (fun e => e.1.1 ≠ d) ++ mine,
            fname := loadNames mine s.fname,
